@@ -507,6 +507,8 @@ class Namespace(Evaluatable[Options]):
         return item
 
     def __getattr__(self, key: str) -> Evaluatable:
+        if key.startswith("_") and key not in self.__dict__.get("_members", {}):
+            raise AttributeError(f"Namespace has no attribute {key!r}")
         try:
             return self[key]
         except KeyError:
